@@ -146,6 +146,62 @@ fn gamma(seed: u64, n: usize, corpus: Option<&Path>) -> Vec<Case> {
         .collect()
 }
 
+/// Substitution cases built around one family of names `B, B1, B2, ...` of one sort: nested quantifier blocks whose
+/// binders come from the family, a body that mentions (and so makes "taken") a stretch of the family, and a term made of
+/// family members - the shapes in which the choice of fresh binder names matters (candidates already bound by an
+/// enclosing quantifier, already chosen in the same block, equal to the substituted variable, past `B9`).
+fn capture_family_case(g: &mut Gen) -> (fol::Formula, fol::Variable, fol::GeneralTerm) {
+    let base = *g.rng.pick(&["X", "Y", "N"]);
+    let sort = if g.rng.chance(1, 2) { fol::Sort::Integer } else { fol::Sort::General };
+    let fam = |k: usize| -> fol::Variable {
+        fol::Variable { name: if k == 0 { base.to_string() } else { format!("{base}{k}") }, sort }
+    };
+    let low = |g: &mut Gen| -> usize { *g.rng.pick(&[0usize, 0, 1, 1, 2, 3]) };
+    let vt = |v: fol::Variable| -> fol::GeneralTerm { v.into() };
+    // the substituted variable: outside the family, or a low member of it
+    let var = if g.rng.chance(2, 3) { fol::Variable { name: "Z".into(), sort } } else { fam(low(g)) };
+    // the term: one or two low family members
+    let a = fam(low(g));
+    let term = if sort == fol::Sort::Integer && g.rng.chance(1, 2) {
+        let b = fam(low(g));
+        fol::GeneralTerm::IntegerTerm(fol::IntegerTerm::BinaryOperation {
+            op: fol::BinaryOperator::Multiply,
+            lhs: Box::new(fol::IntegerTerm::Variable(a.name.clone())),
+            rhs: Box::new(fol::IntegerTerm::Variable(b.name.clone())),
+        })
+    } else {
+        vt(a)
+    };
+    // body: p(var?, some low members) [or q(a stretch B_lo..B_hi)]
+    let mut args = vec![];
+    if g.rng.chance(4, 5) { args.push(vt(var.clone())); }
+    for _ in 0..(1 + g.rng.below(3)) { args.push(vt(fam(low(g)))); }
+    let mut body = fol::Formula::AtomicFormula(fol::AtomicFormula::Atom(fol::Atom { predicate_symbol: "p".into(), terms: args }));
+    if g.rng.chance(1, 2) {
+        let lo = 1 + g.rng.below(2);
+        let hi = lo + *g.rng.pick(&[0usize, 1, 2, 8, 9, 10]);
+        let mut qs: Vec<fol::GeneralTerm> = (lo..=hi).map(|k| vt(fam(k))).collect();
+        if g.rng.chance(1, 2) { qs.push(vt(var.clone())); }
+        let q = fol::Formula::AtomicFormula(fol::AtomicFormula::Atom(fol::Atom { predicate_symbol: "q".into(), terms: qs }));
+        body = fol::Formula::BinaryFormula { connective: if g.rng.chance(1, 2) { fol::BinaryConnective::Disjunction } else { fol::BinaryConnective::Conjunction }, lhs: Box::new(body), rhs: Box::new(q) };
+    }
+    // 1-3 nested blocks, innermost first
+    let mut f = body;
+    for _ in 0..(1 + g.rng.below(3)) {
+        let mut vars = vec![];
+        for _ in 0..(1 + g.rng.below(3)) { vars.push(fam(low(g))); }
+        if g.rng.chance(1, 6) { vars.push(var.clone()); }
+        f = fol::Formula::QuantifiedFormula {
+            quantification: fol::Quantification { quantifier: if g.rng.chance(1, 2) { fol::Quantifier::Forall } else { fol::Quantifier::Exists }, variables: vars },
+            formula: Box::new(f),
+        };
+        if g.rng.chance(1, 4) {
+            f = fol::Formula::UnaryFormula { connective: fol::UnaryConnective::Negation, formula: Box::new(f) };
+        }
+    }
+    (f, var, term)
+}
+
 fn substitute(seed: u64, n: usize, corpus: Option<&Path>) -> Vec<Case> {
     let mut cases = vec![];
     // corpus: `formula ;; variable ;; term`
@@ -164,6 +220,11 @@ fn substitute(seed: u64, n: usize, corpus: Option<&Path>) -> Vec<Case> {
         g.nvars = 2 + g.rng.below(6);
         g.npreds = 2 + g.rng.below(3);
         let depth = 1 + g.rng.below(4);
+        if i % 3 == 2 {
+            let (f, v, t) = capture_family_case(&mut g);
+            triples.push((format!("seed:{seed}:{i}:family"), f, v, t));
+            continue;
+        }
         let f = g.formula(depth);
         // prefer a variable that occurs in the formula
         let fv: Vec<fol::Variable> = f.variables().into_iter().collect();
@@ -656,6 +717,26 @@ fn gen_ext_task(rng: &mut Rng, origin: String) -> ExtTask {
         let direction = *g.rng.pick(&[fol::Direction::Universal, fol::Direction::Forward, fol::Direction::Backward]);
         let name = if g.rng.chance(2, 3) { format!("l{i}") } else { String::new() };
         match g.rng.below(4) {
+            0 if g.rng.chance(1, 3) => {
+                // binary definition: head arguments and quantified variables drawn independently (repeated head
+                // variables, quantified variables missing from the head, head variables not quantified)
+                let sort = if g.rng.chance(1, 4) { fol::Sort::Integer } else { fol::Sort::General };
+                let mk = |n: &str| fol::Variable { name: n.into(), sort };
+                let pool = ["X", "Y", "Z"];
+                let a = mk(pool[g.rng.below(2)]);
+                let b = mk(pool[g.rng.below(2)]);
+                let vars: Vec<fol::Variable> = match g.rng.below(5) {
+                    0 => vec![mk("X")],
+                    1 => vec![mk("X"), mk("Y"), mk("Z")],
+                    2 => vec![mk("Y"), mk("X")],
+                    _ => vec![mk("X"), mk("Y")],
+                };
+                let lhs = fol::Formula::AtomicFormula(fol::AtomicFormula::Atom(fol::Atom { predicate_symbol: format!("def{i}"), terms: vec![a.clone().into(), b.clone().into()] }));
+                let r1 = atom1("in1", mk(pool[g.rng.below(2)]).into());
+                let r2 = atom1(if g.rng.chance(1, 2) { "out1" } else { "in1" }, mk(pool[g.rng.below(3)]).into());
+                let rhs = if g.rng.chance(1, 3) { r1 } else { fol::Formula::BinaryFormula { connective: g.rng.pick(&[fol::BinaryConnective::Conjunction, fol::BinaryConnective::Disjunction]).clone(), lhs: Box::new(r1), rhs: Box::new(r2) } };
+                po.push(fol::AnnotatedFormula { role: fol::Role::Definition, direction, name, formula: fol::Formula::QuantifiedFormula { quantification: fol::Quantification { quantifier: fol::Quantifier::Forall, variables: vars }, formula: Box::new(fol::Formula::BinaryFormula { connective: fol::BinaryConnective::Equivalence, lhs: Box::new(lhs), rhs: Box::new(rhs) }) } });
+            }
             0 => {
                 // definition of a fresh predicate
                 let x = fol::Variable { name: "X".into(), sort: if g.rng.chance(1, 3) { fol::Sort::Integer } else { fol::Sort::General } };
